@@ -667,6 +667,20 @@ def rule_r7(rep, repo):
                         return True
                     if norm(a) in table_vars:
                         return True
+                    # the key list of a table that is a *parameter* of a private module-level helper: ordered when every call
+                    # of the helper hands over a dispatched degree / size table
+                    pname = norm(a.func.value) if (isinstance(a, ast.Call) and isinstance(a.func, ast.Attribute)
+                                                   and a.func.attr == "keys") else norm(a)
+                    if pname in f.allparams and f.cls is None and f.parent is None and f.name.startswith("_"):
+                        pos_ = f.allparams.index(pname)
+                        sites = [c_ for g_ in repo.funcs.values() if g_.module == f.module and not g_.is_lambda
+                                 and repo.by_node.get(id(g_.node)) is g_
+                                 for c_ in ast.walk(g_.node) if isinstance(c_, ast.Call) and isinstance(c_.func, ast.Name)
+                                 and c_.func.id == f.name]
+                        args_ = [next((k_.value for k_ in c_.keywords if k_.arg == pname),
+                                      c_.args[pos_] if len(c_.args) > pos_ else None) for c_ in sites]
+                        if sites and all(a_ is not None and norm(a_) in table_vars for a_ in args_):
+                            return True
                     return ordered(a, depth + 1)
                 return None
             if isinstance(e, ast.Subscript) and isinstance(e.slice, ast.Slice) and e.slice.step is None:
@@ -709,7 +723,7 @@ def rule_r7(rep, repo):
                               repo.rel(f.module, c))
             else:
                 raise AnalysisError(f"cannot tell whether `{norm(hay)[:40]}` searched in {q} is ordered")
-    rep.floor("binary-search sites (positive examples: the degree/size resolver)", n, 2)
+    rep.floor("binary-search sites (positive examples: the degree/size resolver)", n, 1)
 
 
 def run(tier="quick", root="/repo", evidence_dir=None, quiet=False):
